@@ -376,7 +376,7 @@ class TFLiteSupportedOperators:
         "Tensors must be of type: {}"
         valid = True
         extra = []
-        tensors = [tens for tens in op.get_ifm_ifm2_weights_ofm() if tens]
+        tensors = [tens for tens in op.get_all_ifms_weights_ofm() if tens]
         if not tensors:
             tensors = [tens for tens in op.inputs if tens]
         for tens in tensors:
@@ -391,7 +391,7 @@ class TFLiteSupportedOperators:
         "Tensors which are int32 are only valid when op type is: {}"
         valid = True
         extra = []
-        tensors = [tens for tens in op.get_ifm_ifm2_weights_ofm() if tens]
+        tensors = [tens for tens in op.get_all_ifms_weights_ofm() if tens]
         if not tensors:
             tensors = [tens for tens in op.inputs if tens]
         for tens in tensors:
@@ -408,7 +408,7 @@ class TFLiteSupportedOperators:
         tens_min, tens_max = cls.tens_dim_range
         valid = True
         extra = []
-        tensors = [tens for tens in op.get_ifm_ifm2_weights_ofm() if tens]
+        tensors = [tens for tens in op.get_all_ifms_weights_ofm() if tens]
         if not tensors:
             tensors = [tens for tens in op.inputs if tens]
         for tens in tensors:
@@ -424,7 +424,7 @@ class TFLiteSupportedOperators:
         valid = True
         extra = []
         if op.type not in cls.per_axis_quant_ops:
-            tensors = [tens for tens in op.get_ifm_ifm2_weights_ofm() if tens]
+            tensors = [tens for tens in op.get_all_ifms_weights_ofm() if tens]
             for tens in tensors:
                 if tens.quantization and tens.quantization.is_per_axis():
                     valid = False
@@ -549,7 +549,7 @@ class TFLiteSupportedOperators:
         "IFM Tensor batch size must be 1"
         valid = True
         extra = []
-        for tens in (op.ifm, op.ifm2):
+        for tens in op.get_all_ifms():
             if tens is not None:
                 batch_size = full_shape(4, tens.shape, 1)[0]
                 if batch_size != 1:
